@@ -917,21 +917,37 @@ impl NodeDeletionEntry {
         Ok(())
     }
 
+    #[allow(dead_code)]
     pub fn with_previous_authors(
         nodes: Vec<Self>,
         conn: &Connection,
     ) -> Result<DeletionEntriesWithAuthors> {
         let mut map = HashMap::new();
-        let mut nodes_id: Vec<Uid> = Vec::with_capacity(nodes.len());
-        let it = &mut nodes.into_iter().peekable();
+        for entry in Self::with_authors(nodes, conn)? {
+            map.insert(entry.0.id, entry);
+        }
+        Ok(map)
+    }
 
+    ///
+    /// find the node authors to verify authorisation before deletion, keeping every entry:
+    /// several deletion entries can exist for the same node when it has been deleted independently by several peers
+    ///
+    pub fn with_authors(
+        nodes: Vec<Self>,
+        conn: &Connection,
+    ) -> Result<Vec<(NodeDeletionEntry, Option<Vec<u8>>)>> {
+        let mut authors: HashMap<Uid, Option<Vec<u8>>> = HashMap::new();
+        let mut nodes_id: Vec<Uid> = Vec::with_capacity(nodes.len());
         let mut in_clause = String::new();
-        while let Some(nid) = it.next() {
-            in_clause.push('?');
-            nodes_id.push(nid.id);
-            map.insert(nid.id, (nid, None));
-            if it.peek().is_some() {
-                in_clause.push(',');
+        for nid in &nodes {
+            if !authors.contains_key(&nid.id) {
+                if !in_clause.is_empty() {
+                    in_clause.push(',');
+                }
+                in_clause.push('?');
+                nodes_id.push(nid.id);
+                authors.insert(nid.id, None);
             }
         }
         let query = format!(
@@ -943,11 +959,14 @@ impl NodeDeletionEntry {
         while let Some(row) = rows.next()? {
             let id: Uid = row.get(0)?;
             let verifying_key: Option<Vec<u8>> = row.get(1)?;
-            if let Some(entry) = map.get_mut(&id) {
-                entry.1 = verifying_key;
-            }
+            authors.insert(id, verifying_key);
         }
-        Ok(map)
+        let mut result = Vec::with_capacity(nodes.len());
+        for nid in nodes {
+            let author = authors.get(&nid.id).cloned().unwrap_or(None);
+            result.push((nid, author));
+        }
+        Ok(result)
     }
 
     pub fn delete_all(
